@@ -56,6 +56,11 @@ instance : (dims idx : List Nat) → Decidable (ValidPrefix dims idx)
     | isFalse h1, _ => isFalse (fun h => h1 h.1)
     | _, isFalse h2 => isFalse (fun h => h2 h.2)
 
+/-- specification side of `index_lex_mono`: strict lexicographic order on index tuples of equal length -/
+def LexLt : List Nat → List Nat → Prop
+  | a :: as, b :: bs => a < b ∨ (a = b ∧ LexLt as bs)
+  | _, _ => False
+
 /-- inverse of `index`: offset → index tuple -/
 def unindex : List Nat → Nat → List Nat
   | [], _ => []
@@ -168,11 +173,53 @@ def integralData {α} [Add α] : List Nat → List α → List α
 def T.integral {α} [Add α] (t : T α) : T α :=
   if size t.dims = 0 then t else ⟨t.dims, integralData t.dims t.data⟩
 
-/-- `remove_if(op, tensor)`: compacts the kept sub-tensors at the front (the tail keeps its old content),
-    returns the number kept -/
+/-- specification side of `integral`: `Σ_{j=0}^{i} g j` -/
+def sumTo : Nat → (Nat → Int) → Int
+  | 0, g => g 0
+  | i + 1, g => sumTo i g + g (i + 1)
+
+/-- specification side of `integral`: the sum of `f q` over all tuples `q ≤ idx` componentwise
+    (`q` has the length of `idx` and `q[k] ∈ 0..idx[k]`) -/
+def boxSum : List Nat → (List Nat → Int) → Int
+  | [], f => f []
+  | i :: is, f => sumTo i (fun j => boxSum is (fun q => f (j :: q)))
+
+/-- first loop of `remove_if` (algorithm.h:43-46): `for (; last < size && !op(last); ++last) {}` — skip the
+    leading kept prefix; returns `last` and the part of the mask not yet visited (`mask[last..]`) -/
+def removeIfSkip : List Bool → Nat → Nat × List Bool
+  | false :: ms, last => removeIfSkip ms (last + 1)
+  | ms, last => (last, ms)
+
+/-- second loop of `remove_if` (algorithm.h:48-55): `for (curr = last; curr < size; ++curr) if (!op(curr))
+    { copy(curr, last, tensor); ++last; }`. The first argument is `mask[curr..]` (so `curr < size` ⇔ non-empty),
+    `rs` is the current content of the tensor as a list of sub-tensors along the first axis; `detail::copy`
+    overwrites sub-tensor `last` by sub-tensor `curr` (`rs[curr]?` is `some _` whenever `curr < size`, which is
+    the C++ assert of `detail::copy`). Returns the final `last` and the final content. -/
+def removeIfLoop {α} : List Bool → Nat → Nat → List (List α) → Nat × List (List α)
+  | [], _, last, rs => (last, rs)
+  | m :: ms, curr, last, rs =>
+    if m then removeIfLoop ms (curr + 1) last rs
+    else
+      match rs[curr]? with
+      | some r => removeIfLoop ms (curr + 1) (last + 1) (rs.set last r)
+      | none => removeIfLoop ms (curr + 1) (last + 1) rs
+
+/-- `remove_if(op, tensor)` on the list of first-axis sub-tensors: the two-pointer loop of the C++ code;
+    compacts the kept sub-tensors at the front (the tail keeps whatever the loop left there), returns the
+    number kept. `mask[i] = op(i)`. -/
 def removeIfRows {α} (mask : List Bool) (rs : List (List α)) : Nat × List (List α) :=
-  let kept := (rs.zip mask).filterMap (fun (r, m) => if m then none else some r)
-  (kept.length, kept ++ rs.drop kept.length)
+  let (last, rest) := removeIfSkip mask 0
+  removeIfLoop rest last last rs
+
+/-- the specification `remove_if` is checked against: the sub-tensors whose flag is `false`, in order -/
+def keptRows {α} : List Bool → List (List α) → List (List α)
+  | m :: ms, r :: rs => if m then keptRows ms rs else r :: keptRows ms rs
+  | _, _ => []
+
+/-- the first-axis indices that `remove_if` keeps, in order (`base` = index of the head of the mask) -/
+def keptIdx : List Bool → Nat → List Nat
+  | [], _ => []
+  | m :: ms, base => if m then keptIdx ms (base + 1) else base :: keptIdx ms (base + 1)
 
 def T.removeIf {α} (t : T α) (mask : List Bool) : Option (Nat × T α) :=
   match t.dims with
